@@ -125,7 +125,8 @@ void exec_c04(const Plan& p, Ctx& ctx) {
 
     std::map<std::string, CurChunk> cur;     // file name -> chunk of the current instance
     std::map<std::string, Orphan> orphans;   // file name -> deadline of a file left by an earlier instance
-    std::set<std::string> removal_faulted;   // files whose removal/wipe itself received an injected error
+    std::set<std::string> removal_faulted;   // files whose unlink itself received an injected error: they may stay
+    std::set<std::string> wipe_faulted;      // files whose overwrite received an injected error: they may go without a full wipe, but they must go
     std::size_t log_pos = 0;
     int pending_crash = -1;
     bool pending_fault = false;
@@ -144,18 +145,19 @@ void exec_c04(const Plan& p, Ctx& ctx) {
             const std::string f = base(e.path);
             if (!is_chunk_file_name(f)) continue;
             if (e.result != 0) {
-                if (!frozen && (e.kind == "unlink" || (e.kind == "write" && e.all_zero))) { removal_faulted.insert(f); ctx.fault("disk_error_on_wipe_or_unlink"); }
+                if (!frozen && e.kind == "unlink") { removal_faulted.insert(f); ctx.fault("disk_error_on_unlink"); }
+                else if (!frozen && e.kind == "write" && e.all_zero) { wipe_faulted.insert(f); ctx.fault("disk_error_on_wipe_overwrite"); }
                 else if (!frozen) ctx.fault("disk_error_on_data_path");
                 continue;
             }
-            if (e.kind == "open_w") { data_size[f] = 0; zero_bytes[f] = 0; }
+            if (e.kind == "open_w") { data_size[f] = 0; zero_bytes[f] = 0; wipe_faulted.erase(f); }
             else if (e.kind == "write") {
                 if (e.len <= 0) continue;
                 if (e.all_zero) zero_bytes[f] += e.len;
                 else { data_size[f] = std::max<std::int64_t>(data_size[f], e.off + e.len); zero_bytes[f] = 0; }
             } else if (e.kind == "unlink") {
                 const std::int64_t need = data_size[f] * passes;
-                if (!frozen && !removal_faulted.count(f) && data_size.count(f) && zero_bytes[f] < need)
+                if (!frozen && !removal_faulted.count(f) && !wipe_faulted.count(f) && data_size.count(f) && zero_bytes[f] < need)
                     ctx.violate("C04.removed_without_full_wipe", fmt("file %s (%lld data bytes) unlinked after only %lld zero bytes were written over it; %d pass(es) configured", f.substr(0, 8).c_str(), (long long)data_size[f], (long long)zero_bytes[f], passes));
                 if (data_size[f] > 0) ctx.probe("wiped_files");
                 data_size.erase(f); zero_bytes.erase(f);
@@ -203,7 +205,7 @@ void exec_c04(const Plan& p, Ctx& ctx) {
             ctx.violate("C04.file_outlives_chunk", fmt("file %s exists but no live chunk owns it (%s)", f.substr(0, 8).c_str(), when));
         }
         for (auto& [f, ch] : cur) {
-            if (ch.persisted && now < ch.deadline && !present.count(f) && !removal_faulted.count(f))
+            if (ch.persisted && now < ch.deadline && !present.count(f) && !removal_faulted.count(f) && !wipe_faulted.count(f))
                 ctx.violate("C04.live_file_missing", fmt("live persisted chunk %s has no file (%s)", f.substr(0, 8).c_str(), when));
         }
         // forget orphans that are gone
@@ -224,7 +226,7 @@ void exec_c04(const Plan& p, Ctx& ctx) {
         digest_log(crashed);
         sk::fs_freeze_at(0, -1);
         sk::fs_reset_counters(0);
-        removal_faulted.clear();
+        removal_faulted.clear(); wipe_faulted.clear();
         node = std::make_unique<en::Node>(kSelf, c);
         digest_log(false);
         ctx.probe(crashed ? "restart_after_crash" : "clean_restart");
